@@ -7,13 +7,15 @@ import (
 	"sync"
 	"syscall"
 	"time"
+
+	"github.com/relex/fluentlib/protocol/forwardprotocol"
 )
 
 // Scripted fake Fluentd Forward server. One script entry per accepted upstream connection (in accept order);
 // after the script is exhausted every connection is healthy.
 
 type UpstreamAttempt struct {
-	Kind  string `json:"kind"`            // healthy | refuse | reset | neverack | late | wrongid | stopreading
+	Kind  string `json:"kind"`            // healthy | refuse | reset | neverack | late | wrongid | stopreading | silent (accepts, never sends or reads anything)
 	After int    `json:"after,omitempty"` // reset: number of messages received (and acknowledged) before the reset
 	AckLast bool `json:"ackLast,omitempty"` // reset: whether the message that triggers the reset is still acknowledged... (false = received but never acknowledged)
 	Delay int    `json:"delay,omitempty"` // late: milliseconds before each ACK
@@ -44,6 +46,7 @@ type FakeForward struct {
 	Pings    int
 	DecodeErrors []string
 	SmallRecvBuf bool
+	Secret       string // non-empty: the server performs the Forward handshake (HELO/PING/PONG) with this shared key on every connection
 }
 
 // PortHolder keeps a TCP port reserved for this process without listening on it: a socket that is bound (with
@@ -183,7 +186,22 @@ func (f *FakeForward) serve(idx int, c net.Conn, at UpstreamAttempt) {
 			_ = tc.SetLinger(0) // RST
 		}
 		return
-	case "stopreading":
+	case "silent":
+		// accept and then say nothing at all: with a shared key configured the client waits for the HELO that never comes
+		f.waitClosed(c)
+		return
+	}
+	f.mu.Lock()
+	secret := f.Secret
+	f.mu.Unlock()
+	if secret != "" {
+		ok, err := forwardprotocol.DoServerHandshake(c, secret, 3*time.Second, func(_, _, _ string) (bool, string) { return true, "" })
+		if err != nil || !ok {
+			return
+		}
+		_ = c.SetDeadline(time.Time{})
+	}
+	if at.Kind == "stopreading" {
 		// never read: the client's writes fill the socket buffers and block
 		f.waitClosed(c)
 		return
